@@ -522,3 +522,66 @@ Proof.
   - exact (closure_spec FOLDS folds_sorted folds_masks folds_nonneg fold_idempotent s c).
   - exact (closure_spec TO_UPPERCASE to_uppercase_sorted upper_masks upper_nonneg uppercase_idempotent s c).
 Qed.
+
+(* ---- the expansion of a single code point (unfold_char / unfold_uppercase_char, used for literals and for the
+   reference side of class matching) enumerates exactly the code points with the same canonical form, for every
+   code point ---- *)
+Lemma insert_sorted_in' x y l : In x (insert_sorted y l) <-> x = y \/ In x l.
+Proof.
+  induction l as [|z t IH]; cbn [insert_sorted].
+  - cbn [In]. intuition.
+  - destruct (y <? z) eqn:E1; [cbn [In]; intuition|]. destruct (y =? z) eqn:E2.
+    + apply N.eqb_eq in E2. subst z. cbn [In]. intuition.
+    + cbn [In]. rewrite IH. intuition.
+Qed.
+Lemma sort_dedup_in x l : In x (sort_dedup l) <-> In x l.
+Proof.
+  unfold sort_dedup. assert (G : forall acc, In x (fold_left (fun acc y => insert_sorted y acc) l acc) <-> In x l \/ In x acc).
+  { induction l as [|y t IH]; intros acc; cbn [fold_left]; [cbn [In]; tauto|]. rewrite IH, insert_sorted_in'. cbn [In]. intuition. }
+  rewrite G. cbn [In]. tauto.
+Qed.
+
+Section UnfoldSpec.
+  Variable T : list (N * N * Z * N).
+  Hypothesis Hsorted : ranges_sorted 0 T = true.
+  Hypothesis Hnonneg : forallb (fun r => (0 <=? Z.of_N (fr_first r) + fr_delta r)%Z) T = true.
+  Hypothesis Hidem : forall c, table_lookup T (table_lookup T c) = table_lookup T c.
+  Notation F := (table_lookup T).
+
+  Lemma apply_moved_is_shift r x : fr_apply r x <> x -> fr_apply r x = Z.to_N (Z.of_N x + fr_delta r).
+  Proof. unfold fr_apply. destruct (_ =? 0); [reflexivity|contradiction]. Qed.
+
+  Theorem unfold_with_spec c a : In a (unfold_with T c) <-> F a = F c.
+  Proof.
+    unfold unfold_with. rewrite sort_dedup_in, in_app_iff. split.
+    - intros [Hb|He].
+      + destruct (F c =? c) eqn:Efc.
+        * cbn [In] in Hb. destruct Hb as [<-|[]]. reflexivity.
+        * cbn [In] in Hb. destruct Hb as [<-|[<-|[]]]; [reflexivity|apply Hidem].
+      + apply in_flat_map in He as (tr & Htr & Hin).
+        destruct ((fr_to_first tr <=? F c) && (F c <=? fr_to_last tr)); [|contradiction].
+        apply filter_In in Hin as [Hr Ha]. apply N.eqb_eq in Ha. apply n_range_in in Hr.
+        destruct (ranges_sorted_lo _ _ _ Hsorted Htr) as (_ & L2 & _).
+        rewrite (lookup_in_range_gen T 0 tr a Hsorted Htr); [exact Ha|lia|unfold fr_len in Hr; lia].
+    - intros E. destruct (N.eq_dec (F a) a) as [Efa|Hmv].
+      + (* a is canonical: it is c's canonical form *)
+        left. rewrite Efa in E. subst a. destruct (F c =? c) eqn:Efc; [apply N.eqb_eq in Efc; rewrite Efc; left; reflexivity|right; left; reflexivity].
+      + right. unfold table_lookup in Hmv, E.
+        destruct (find (fun r => (fr_first r <=? a) && (a <=? fr_last r)) T) as [tr|] eqn:Ef; [|contradiction].
+        apply find_some in Ef as [Htr Hc]. apply andb_true_iff in Hc as [H1 H2]. apply N.leb_le in H1, H2.
+        apply in_flat_map. exists tr. split; [exact Htr|].
+        assert (Hsh : fr_apply tr a = Z.to_N (Z.of_N a + fr_delta tr)) by (apply apply_moved_is_shift; exact Hmv).
+        assert (Hnn : (0 <= Z.of_N (fr_first tr) + fr_delta tr)%Z).
+        { rewrite forallb_forall in Hnonneg. specialize (Hnonneg tr Htr). apply Z.leb_le in Hnonneg. exact Hnonneg. }
+        assert (Hrange : (fr_to_first tr <=? table_lookup T c) && (table_lookup T c <=? fr_to_last tr) = true).
+        { unfold table_lookup at 1 2. rewrite <- E, Hsh. unfold fr_to_first, fr_to_last. apply andb_true_iff. split; apply N.leb_le; lia. }
+        rewrite Hrange. apply filter_In. split.
+        * apply n_range_in. destruct (ranges_sorted_lo _ _ _ Hsorted Htr) as (_ & L2 & _). unfold fr_len. lia.
+        * apply N.eqb_eq. unfold table_lookup. rewrite <- E. reflexivity.
+  Qed.
+End UnfoldSpec.
+
+Theorem unfold_char_spec : forall c a, In a (unfold_char c) <-> fold a = fold c.
+Proof. exact (unfold_with_spec FOLDS folds_sorted folds_nonneg fold_idempotent). Qed.
+Theorem unfold_uppercase_char_spec : forall c a, In a (unfold_uppercase_char c) <-> uppercase a = uppercase c.
+Proof. exact (unfold_with_spec TO_UPPERCASE to_uppercase_sorted upper_nonneg uppercase_idempotent). Qed.
